@@ -203,6 +203,12 @@ func (t *tr) evCall(c *ast.CallExpr) []Term {
 		// immediately invoked literal without contract: inline it
 		return t.inlineLit(ct.lit, c.Args, c.Pos())
 	}
+	if con == nil && effectFreeByDefault(ct.key) {
+		// logging and formatting helpers without an explicit contract: no effect on program state, any result,
+		// no panic (assumption, noted) — so that adding a log line does not make a unit unverifiable
+		t.V.note("default contract for " + ct.key + ": effect-free (logging/formatting), any result")
+		return t.havocResults(c)
+	}
 	if con == nil {
 		t.errorf(c.Pos(), "no contract for callee %s", ct.key)
 		t.V.missing[ct.key]++
@@ -704,6 +710,25 @@ func (t *tr) runLoopDefer(d *deferRec) {
 	oldTop := t.read(t.allocTop)
 	top := t.fresh(t.allocTop)
 	t.assume(ge(top, oldTop))
+}
+
+// effectFreeByDefault: standard logging and formatting entry points. They get an implicit contract "modifies
+// nothing, any result, does not panic" when no contract file mentions them.
+func effectFreeByDefault(key string) bool {
+	for _, p := range []string{
+		"log.Printf", "log.Print", "log.Println",
+		"github.com/grailbio/base/log.Printf", "github.com/grailbio/base/log.Print", "github.com/grailbio/base/log.Debugf",
+		"github.com/grailbio/base/log.Errorf", "github.com/grailbio/base/log.Level.Printf", "github.com/grailbio/base/log.Level.Print",
+		"github.com/grailbio/base/log.Level.Println", "github.com/grailbio/base/log.Error.Printf", "github.com/grailbio/base/log.Debug.Printf",
+		"fmt.Sprintf", "fmt.Sprint", "fmt.Sprintln", "fmt.Fprintf", "fmt.Fprintln", "fmt.Fprint", "fmt.Printf", "fmt.Println",
+		"strings.Join", "strings.Repeat", "strings.TrimSpace", "strings.ToLower", "strings.ToUpper", "strings.HasPrefix", "strings.HasSuffix", "strings.Contains",
+		"strconv.Itoa", "strconv.Quote", "strconv.FormatInt",
+	} {
+		if key == p {
+			return true
+		}
+	}
+	return false
 }
 
 var calleeInternalRe = regexp.MustCompile(`at_loop\(|\bpanicked\b|\breturned[0-9]`)
